@@ -53,6 +53,7 @@ case_strategy = st.fixed_dictionaries({
         "targets": st.lists(st.tuples(st.integers(0, 30), f(0.05, 0.95), f(0, 360), f(8, 60)), min_size=1, max_size=3),
     }),
     "docov": st.sampled_from([False, False, True]),
+    "cli": st.sampled_from([False, False, True]),
 })
 
 
@@ -249,8 +250,26 @@ def check_case(c):
                                                  docov=c["docov"], cores=1)
         R = SourceFinder().find_sources_in_image(path, rms=rms, bkg=0.0, innerclip=seedclip, outerclip=floodclip,
                                                  docov=c["docov"], cores=1, mask=copy.deepcopy(region))
+        cli_rows = None
+        if c.get("cli"):
+            from vlib.cli import run_aegean
+            mim = os.path.join(d, "region.mim")
+            region.save(mim)
+            argv = ["--forcerms", rms, "--forcebkg", 0.0, "--seedclip", seedclip, "--floodclip", floodclip, "--negative",
+                    "--region", mim] + ([] if c["docov"] else ["--nocov"])
+            rc, cli_rows = run_aegean(path, d, "region", argv)
+            if rc not in (0, None):
+                res.bad("cli-region-run", "aegean --region returned %r" % (rc,), **tags)
     finally:
         shutil.rmtree(d, ignore_errors=True)
+    if cli_rows is not None and not res.violations:
+        def numrow(s_):
+            return tuple("nan" if (isinstance(v, float) and math.isnan(v)) else float(v) for v in
+                         (s_.ra, s_.dec, s_.peak_flux, s_.a, s_.b, s_.pa, s_.int_flux, s_.err_ra, s_.err_peak_flux, s_.flags, s_.source))
+        if sorted(numrow(s_) for s_ in cli_rows) != sorted(numrow(s_) for s_ in R):
+            res.bad("cli-region-differs", "%s: `aegean --region` wrote %d components, find_sources_in_image(mask=) returns %d "
+                    "(or their values differ)" % (what, len(cli_rows), len(R)), **tags)
+        res.label("cli")
     nisl_u = max([u.island for u in U], default=0)
     if nisl_u > len(kept):
         res.bad("island-numbering", "%s: unrestricted run numbers %d islands, the image has %d" % (what, nisl_u, len(kept)), **tags)
